@@ -100,6 +100,9 @@ def oracle_load_equality(ck, rng):
         scale = float(rng.choice([1.0, 0.5, 2.0]))
         # binned-grid position c' (integer for odd S, half-integer for even S) -> original position c = b c' + (b-1)/2
         cb = np.array([rng.integers(4, 6) + ((s - 1) / 2 - (s - 1) // 2) for s in S], dtype=float)
+        if i % 4 == 2:
+            # a box touching the low faces of the tomogram (still fully inside): its interpolation margin starts below index 0
+            cb = np.array([(s - 1) // 2 + ((s - 1) / 2 - (s - 1) // 2) + int(rng.integers(0, 2)) for s in S], dtype=float)
         c = b * cb + (b - 1) / 2
         mol = Molecules(c[None] * scale)
         use_dask = bool(i % 2)
